@@ -124,7 +124,8 @@ def gen_spec_enum(ctx):
         ctx.exhaustive = "all specifications of <= %d parts over %d item kinds x %d sizes; all single percentages 0..100 x sizes 0..300" % (3 if quick else 4, len(ABS) + len(PCT) + 1, len(sizes))
 
 
-MALFORMED = ["rest_rest", "5#_rest_rest", "foo", "5", "5$", "#", "%", "_", "5#_", "_5#", "5#__5#", "rest5", "5#_bar", "ten%", "1.5#", "", "REST", "5#_10%_x"]
+MALFORMED = ["rest_rest", "5#_rest_rest", "foo", "5", "5$", "#", "%", "_", "5#_", "_5#", "5#__5#", "rest5", "5#_bar", "ten%", "1.5#", "", "REST", "5#_10%_x",
+             "-5#_rest", "-1#", "-50%_rest", "5#_-1#_rest"]       # a negative number is not a size
 
 
 def gen_malformed(ctx):
